@@ -218,7 +218,15 @@ Proof.
   destruct Hstep as [k [Hk Hst]]. rewrite Hst, (Hgo k Hk) in H.
   destruct (retry MUnwrap 0 _ (PSending k) answers) as [[[s3 r] a3] rest3].
   cbn [app] in H.
-  destruct r as [v' | e | | | [|] | ]; try destruct (existsb _ _);
+  assert (Fin : forall X, X = (st', ob, rest) -> X = (st', ob, rest)) by auto.
+  destruct r as [v' | e | | | [|] | ].
+  2: { destruct (existsb _ _); [destruct (f_close_flush fl && negb (send_lock s3)) |].
+       - destruct (wbio s3) as [| w0 w'];
+           [| destruct rest3 as [| [x | t] rest4]; [| | destruct t as [d | | | | bt]; try destruct bt]];
+           inversion H; subst; eexists; (split; [reflexivity |]); rewrite ?in_app_iff; cbn; auto 14.
+       - inversion H; subst; eexists; (split; [reflexivity |]); rewrite ?in_app_iff; cbn; auto 10.
+       - inversion H; subst; eexists; (split; [reflexivity |]); rewrite ?in_app_iff; cbn; auto 10. }
+  all: try destruct (existsb _ _);
     inversion H; subst; eexists; (split; [reflexivity |]);
     rewrite ?in_app_iff; cbn; auto 10.
 Qed.
